@@ -20,7 +20,7 @@ RULE = (
     "error computed by the harness. Non-trivial: weights not normalised, or zeros present, or shuffled input."
 )
 ASSUMPTIONS = [
-    "with tied observations carrying different array weights, the association of weights to plotting positions is only fixed up to the tie order; generated array weights are a function of x there, so the reference is unique",
+    "with tied observations carrying different array weights, the association of weights to plotting positions is only fixed up to the tie order: 'array' weights are a function of x (unique reference); 'random' weights are unrelated to x and, where ties with different weights occur, only the invariances (joint permutation, weight scaling) are asserted",
     "free delta: fmin's own tolerance (1e-4) bounds how close the result is to the local minimiser; optimality is judged against delta*(1 +- 1e-3)",
     "local optimality of a free delta is only judged where (0.5/n)^(1/delta) >= 1e-10, i.e. where the plotting-position transform is computable in double precision (degenerate samples drive delta towards 0 where no interior minimum exists)",
 ]
@@ -52,6 +52,10 @@ def make_weights(spec, x):
     if spec["kind"] == "array":
         # a positive function of x (unique under ties) times a scale
         w = (spec["a"] + x ** spec["pow"]) * spec["scale"]
+        return w.copy(), w
+    if spec["kind"] == "random":
+        # weights that belong to the observations and are unrelated to their values
+        w = np.random.default_rng(spec["wseed"]).uniform(0.1, 10.0, len(x)) * spec["scale"]
         return w.copy(), w
     raise ValueError(spec)
 
@@ -102,7 +106,7 @@ def check_lsq(case, ctx):
     wkind = "none" if case["weights"] is None else case["weights"]["kind"] + (":" + case["weights"].get("name", "").lower() if case["weights"]["kind"] == "keyword" else "")
     fixed_delta = case["delta_fixed"]
     ctx.cls(f"weights={wkind}", f"delta={'fixed' if fixed_delta else 'free'}", f"method={case['method']}", f"order={case['order']}", f"zeros={'yes' if case['zeros'] else 'no'}")
-    unnormalised = case["weights"] is None or case["weights"]["kind"] == "array"
+    unnormalised = case["weights"] is None or case["weights"]["kind"] in ("array", "random")
     ctx.nontrivial(unnormalised or case["zeros"] > 0 or case["order"] != "sorted")
 
     def fit(data, weights):
@@ -121,8 +125,15 @@ def check_lsq(case, ctx):
     if not (math.isfinite(alpha) and math.isfinite(beta) and math.isfinite(delta) and delta > 0):
         ctx.violation(f"nonfinite:{wkind}", f"{tag}: alpha={alpha!r} beta={beta!r} delta={delta!r}")
         return
+    # tied observations with different weights: which weight meets which plotting position is not fixed by the
+    # property (any deterministic rule is a valid regression) - only the invariances below apply there
+    xs_, ws_ = x[np.argsort(x, kind="stable")], wref[np.argsort(x, kind="stable")]
+    tie = (np.diff(xs_) == 0) & (np.diff(ws_) != 0) & (xs_[1:] != 0)
+    ambiguous_ties = bool(tie.any())
+    if ambiguous_ties:
+        ctx.cls("ties_with_different_weights")
     ra, rb = reference_alpha_beta(x, wref, delta)
-    bad = rel(alpha, ra) > 1e-8 or rel(beta, rb) > 1e-8
+    bad = (rel(alpha, ra) > 1e-8 or rel(beta, rb) > 1e-8) and not ambiguous_ties
     if bad:
         # for very small delta, p^(1/delta) approaches the rounding unit and log(1-q) vs log1p(-q)
         # differ; both are faithful evaluations of the documented relation
@@ -144,7 +155,7 @@ def check_lsq(case, ctx):
         # the smallest plotting position to the power 1/delta is at the rounding unit: the quantile
         # transform is no longer computable, no interior minimum exists in the computable region
         ctx.cls("delta_at_float_limit")
-    if not fixed_delta and not at_float_limit:
+    if not fixed_delta and not at_float_limit and not ambiguous_ties:
         e0 = xspace_error(x, wref, delta)
         for f in (1 - 1e-3, 1 + 1e-3):
             e1 = xspace_error(x, wref, delta * f)
@@ -188,12 +199,14 @@ def strat_lsq(tier):
             params = dict(alpha=draw(fam.logu(0.3, 12)), beta=draw(fam.logu(0.7, 4)), gamma=0.0)
         else:
             params = draw(fam.PLAUSIBLE[src_family]())
-        wkind = draw(st.sampled_from(["none", "keyword", "keyword", "array", "array"]))
+        wkind = draw(st.sampled_from(["none", "keyword", "keyword", "array", "array", "random"]))
         if wkind == "none":
             weights = None
         elif wkind == "keyword":
             name = draw(st.sampled_from(["linear", "quadratic", "cubic", "Linear", "QUADRATIC", "Cubic"]))
             weights = dict(kind="keyword", name=name)
+        elif wkind == "random":
+            weights = dict(kind="random", wseed=draw(st.integers(0, 2**31 - 1)), scale=draw(st.sampled_from([1.0, 1e-3, 100.0])))
         else:
             weights = dict(kind="array", a=draw(st.floats(0.01, 2.0)), pow=draw(st.sampled_from([0.0, 0.5, 1.0, 2.0, 3.0])), scale=draw(st.sampled_from([1.0, 1e-3, 10.0, 1e4])))
         return dict(
